@@ -1411,7 +1411,9 @@ class DiameterMessage:
         if not self.has_avp(old_avp_key):
             raise DiameterMessageError(f"`{old_avp_key}` key not defined")
             
-        if self.has_avp(new_avp_key):
+        #: Neither the name of another AVP nor a name the message itself
+        #: uses (its AVP list, its header, its methods).
+        if self.has_avp(new_avp_key) or hasattr(self, new_avp_key):
             raise DiameterMessageError(f"`{new_avp_key}` key already defined")
 
         self.__dict__[new_avp_key] = self.__dict__.pop(old_avp_key)
